@@ -239,6 +239,8 @@ def _huffman_history(ctx, exe):
         for st in h:
             if st["a"] in ("hop", "decay"):
                 cmds.append("%s %r" % (st["a"], float(st["r"])))
+            elif st["a"] == "sit":
+                cmds.append("sit")
             elif st["a"] == "init":
                 plan.append(("init", len(cmds), st))
                 cmds.append("init")
@@ -261,6 +263,7 @@ def _huffman_history(ctx, exe):
         items.append((i, cmds))
         plans.append(plan)
     results, crashes = vlib.run_items(exe, items)
+    n_sat = [0]
     for i, h in enumerate(hists):
         ctx.traces += 1
         rep = {"history": h}
@@ -277,7 +280,14 @@ def _huffman_history(ctx, exe):
             if p[0] == "init":
                 kinds = [s["a"] for s in h[:h.index(st)] if s["a"] in ("hop", "decay")]
                 kc = "decay" if "decay" in kinds else "hops"
-                esc = float(_line(out[p[1]], "esc")[0])
+                el = _line(out[p[1]], "esc")
+                esc = float(el[0])
+                if st.get("car", -1) >= 0:
+                    n_sat[0] += 1
+                    if float(el[2]) != float(st["car"]):
+                        ctx.violation("Huffman:history:carrier-escape-rate:stale",
+                                      "a carrier sitting on the node reports escape rate %s after InitEscapeRate gave %r "
+                                      "(events %s)" % (el[2], esc, kinds), rep)
                 if esc != float(st["esc"]):
                     ctx.violation("Huffman:history:escape-rate:" + kc,
                                   "InitEscapeRate gave %r, sum of all event rates is %d (events %s)" % (esc, st["esc"], kinds), rep)
@@ -318,6 +328,9 @@ def _huffman_history(ctx, exe):
                 ctx.violation("Huffman:history:measure:" + tag,
                               "selection measure numerators %s over %d, expected %s (%s)" % (meas, S, st["exp"], what), rep)
     ctx.extra["huffman_histories"] = len(hists)
+    ctx.extra["huffman_histories_with_carrier_on_modified_node"] = n_sat[0]
+    if n_sat[0] == 0:
+        raise vlib.InfraError("vacuous: no history re-initialises a node that carries a carrier")
     ctx.sample({"huffman_history": hists[len(hists) // 2]})
 
 
@@ -723,11 +736,16 @@ def _lifetime(ctx, exe):
     ctx.sample({"kmclifetime_run": recs[used[len(used) // 2]]})
 
 
-KT = {1: 2.0 ** -10, 2: 3.0 * 2.0 ** -11}     # Hartree (308 K, 462 K)
+KT = {1: 2.0 ** -10, 2: 3.0 * 2.0 ** -11, 3: 2.0 ** -14}     # Hartree (308 K, 462 K, 19 K)
 
 
-def _marcus(ctx, exe):
-    mod = "MCMarcusQuick" if ctx.quick else "MCMarcusThorough"
+def _marcus_deep(ctx, exe):
+    """barriers up to 650 kT (low temperature / large offsets): same law, no clamping anywhere"""
+    _marcus(ctx, exe, "MCMarcusDeep")
+
+
+def _marcus(ctx, exe, deep=None):
+    mod = deep or ("MCMarcusQuick" if ctx.quick else "MCMarcusThorough")
     res = vlib.tlc("marcus", mod, cfg=mod + ".cfg", workers=6, timeout=3000, heap="6g")
     vlib.tlc_must_hold(res, "Marcus: detailed balance, positivity, linearity on the log-lattice")
     ctx.add_tlc(mod, res)
@@ -774,7 +792,7 @@ def _marcus(ctx, exe):
                 ctx.violation("Marcus:prefactor", "k0^2 kT lam = %r differs from %r of the first class: the prefactor is not "
                               "proportional to 1/sqrt(lam kT) (%s)" % (c2, pref, r), r)
     ctx.extra["marcus_reference_classes"] = len(refs)
-    n_uneq = 0
+    n_uneq = n_deep = 0
     results, crashes = vlib.run_items(exe, items)
     for i, r in enumerate(vecs):
         ctx.count()
@@ -793,6 +811,13 @@ def _marcus(ctx, exe):
             continue
         a = [float(t) for t in _line(out[0], "rates")]
         b = [float(t) for t in _line(out[1], "rates")]
+        if not r.get("rep", True):
+            continue        # a rate below the double range: outside the representability guard of the spec
+        barrier = max(-r["x12n"] / float(r["x12d"]), -r["x21n"] / float(r["x21d"]))
+        if barrier > 230:
+            n_deep += 1
+        if barrier > 100:
+            cls = "deep-barrier:" + cls
         if not all(x > 0.0 and math.isfinite(x) for x in a + b):
             ctx.violation("Marcus:positive:" + cls, "rates %s / %s are not positive finite numbers for %s" % (a, b, r), r)
             continue
@@ -815,6 +840,12 @@ def _marcus(ctx, exe):
                               "ln(k12/k21) = %r, detailed balance demands (E1-E2+qF.R)/kT = %d for %s" % (got, r["lnratio"], r), r)
     if vecs:
         ctx.sample({"marcus_vector": vecs[len(vecs) // 3]})
+    if deep:
+        ctx.extra["marcus_deep_vectors"] = len(vecs)
+        ctx.extra["marcus_vectors_barrier_above_230kT"] = n_deep
+        if n_deep < 100:
+            raise vlib.InfraError("vacuous: only %d representable points with a barrier above 230 kT" % n_deep)
+        return
     ctx.extra["marcus_vectors"] = len(vecs)
     ctx.extra["marcus_unequal_reorg_vectors"] = n_uneq
     if n_uneq == 0 or not any(r["lnratio"] > r["l12"] or -r["lnratio"] > r["l21"] for r in vecs) \
@@ -922,7 +953,7 @@ def run(ctx):
         "Promotetime's uniform variate is scripted by replacing the distribution of KMCCalculator::RandomVariable_ "
         "with the degenerate uniform_real_distribution(r,r)"]
     for name, layer in (("Huffman", _huffman_lattice), ("Huffman:history", _huffman_history), ("Huffman:wide", _huffman_wide),
-                        ("Graph", _graph), ("Walk", _walk), ("KMCLifetime", _lifetime), ("Marcus", _marcus),
+                        ("Graph", _graph), ("Walk", _walk), ("KMCLifetime", _lifetime), ("Marcus", _marcus), ("Marcus:deep", _marcus_deep),
                         ("Marcus:field", _marcus_field), ("KMC", _wait), ("Observations", _observations)):
         try:
             layer(ctx, exe)
